@@ -100,12 +100,12 @@ def linearity_oracle(cfg, built, rng, drv=None, Fm=None):
     return viol
 
 
-def scale_sweep(fn, x, y, tol):
+def scale_sweep(fn, x, y, tol, tiny_imag=True):
     """homogeneity over many orders of magnitude (powers of two, so exact for + - x kernels) and superposition of
     a large real with a tiny imaginary input: A(x + i s y) = A(x) + i s A(y)"""
     (ax,), (ay,) = fn(x), fn(y)
     ref = max(1e-300, float(ax.abs().max()), float(ay.abs().max()))
-    for e in (-40, -30, 30):
+    for e in (-70, -40, -30, 30):
         s = 2.0 ** e
         (l,) = fn(s * x)
         if float((l - s * ax).abs().max()) > (100 * tol) * s * ref:
@@ -117,7 +117,7 @@ def scale_sweep(fn, x, y, tol):
         # mix real and imaginary parts (DFT, PCA, ...) get the rounding error of the large part as allowance
         eps = 1.2e-7 if x.dtype == torch.complex64 else 2.3e-16
         mixing = float(axr.imag.abs().max()) + s * float(ayr.real.abs().max()) * (float(ayr.imag.abs().max()) > 0)
-        if e < 0 and float((l - axr - 1j * s * ayr).imag.abs().max()) > (100 * tol) * s * ref + 1e3 * eps * mixing:
+        if tiny_imag and -60 < e < 0 and float((l - axr - 1j * s * ayr).imag.abs().max()) > (100 * tol) * s * ref + 1e3 * eps * mixing:
             return f'A(x + i s y) != A(x) + i s A(y) for real x, y and s = 2^{e} (the small imaginary part is lost)'
     return None
 
